@@ -239,6 +239,12 @@ def check(case, rec):
             obj.thresholds[key] = v
             model.th[key] = v
             event_since_fit = True
+        elif kind == 'set_extrema_option':
+            # the cyclepoint options are a public attribute too: an in-place edit applies to this object (and only to this one)
+            v = [0, 2, 5, 1][op[1] % 4]
+            obj.find_extrema_kwargs['boundary'] = v
+            model.fek['boundary'] = v
+            event_since_fit = True
         elif kind == 'set_burst_option':
             if model.method != 'amp':
                 continue
@@ -351,14 +357,14 @@ def st_settings(draw, band):
 def st_op(draw, band):
     kind = draw(st.sampled_from(['fit', 'fit', 'fit', 'fit', 'fit', 'fit', 'recompute', 'load', 'set_threshold', 'set_threshold',
                                  'set_burst_option', 'set_burst_option', 'switch_method', 'switch_method', 'switch_center', 'read',
-                                 'read', 'construct', 'np_thresholds', 'recompute', 'clone']))
+                                 'read', 'construct', 'construct', 'np_thresholds', 'recompute', 'clone', 'set_extrema_option']))
     if kind == 'fit' or kind == 'load':
         if kind == 'fit' and draw(st.integers(0, 3)) == 0:
             kind = 'fit_buffer'
         return [kind, draw(st.integers(0, 3))]
     if kind == 'recompute':
         return [kind, draw(st.sampled_from([None, 0, 0.05, 0.1, 0.3]))]
-    if kind == 'np_thresholds' or kind == 'clone':
+    if kind == 'np_thresholds' or kind == 'clone' or kind == 'set_extrema_option':
         return [kind, draw(st.integers(0, 2))]
     if kind == 'set_threshold':
         return [kind, draw(st.sampled_from([0, 1, 2, 3, 4, -1, -1, -1])), draw(st.sampled_from([0.0, 0.125, 0.25, 0.5, 0.75]))]
